@@ -14,14 +14,17 @@ Local Open Scope Z_scope.
 (* [Sent k]: the k-th sentinel of errors.go:18-52 (pointer identity = index).  [CtxCanceled]/[CtxDeadline]:
    context.Canceled / context.DeadlineExceeded.  [Foreign i m]: a comparable error value of another package
    (io.EOF, os.ErrNotExist, ...), identity [i], text [m].  [Opaque m]: errors.New(m) allocated somewhere else
-   (equal to nothing).  [Wrap m inner]: *fmt.wrapError{msg: m, err: inner} (fmt.Errorf with one %w). *)
+   (equal to nothing).  [Wrap m inner]: *fmt.wrapError{msg: m, err: inner} (fmt.Errorf with one %w).
+   [Multi m a b]: an error with text m that wraps BOTH a and b (Unwrap() []error): fmt.Errorf with two %w, or
+   errors.Join(a, b) — a composite that can be of a library kind and a context error at the same time. *)
 Inductive err :=
 | Sent (k : nat)
 | CtxCanceled
 | CtxDeadline
 | Foreign (i : nat) (m : bytes)
 | Opaque (m : bytes)
-| Wrap (m : bytes) (inner : err).
+| Wrap (m : bytes) (inner : err)
+| Multi (m : bytes) (a b : err).
 
 Inductive target := TK (k : nat) | TCanceled | TDeadline | TF (i : nat).
 
@@ -36,7 +39,11 @@ Definition same (e : err) (t : target) : bool :=
 
 (* errors.Is(e, t) for a comparable target without Is method *)
 Fixpoint is (e : err) (t : target) : bool :=
-  same e t || match e with Wrap _ i => is i t | _ => false end.
+  same e t || match e with Wrap _ i => is i t | Multi _ a b => is a t || is b t | _ => false end.
+
+(* no composite inside: a single Unwrap chain *)
+Fixpoint chain (e : err) : bool :=
+  match e with Wrap _ i => chain i | Multi _ _ _ => false | _ => true end.
 
 (* errors.go:64 Any(target, errs...) = exists e in errs, errors.Is(e, target) || errors.Is(target, e); with sentinel
    [errs] the first disjunct is subsumed by the second.  [None] = nil. *)
@@ -61,6 +68,7 @@ Definition text (e : err) : bytes :=
   | Foreign _ m => m
   | Opaque m => m
   | Wrap m _ => m
+  | Multi m _ _ => m
   end.
 
 Definition unwrap (e : err) : option err := match e with Wrap _ i => Some i | _ => None end.
